@@ -28,10 +28,24 @@ enum IntVal {
     U32(u32),
     I64(i64),
     U64(u64),
+    #[serde(with = "dec_str")]
     I128(i128),
+    #[serde(with = "dec_str")]
     U128(u128),
     Isize(isize),
     Usize(usize),
+}
+
+/// 128-bit integers travel through JSON as decimal strings (serde_json's Value has no 128-bit numbers)
+mod dec_str {
+    use serde::{Deserialize, Deserializer, Serializer};
+    pub fn serialize<T: ToString, S: Serializer>(v: &T, s: S) -> Result<S::Ok, S::Error> {
+        s.serialize_str(&v.to_string())
+    }
+    pub fn deserialize<'de, T: std::str::FromStr, D: Deserializer<'de>>(d: D) -> Result<T, D::Error> {
+        let s = String::deserialize(d)?;
+        s.parse::<T>().map_err(|_| serde::de::Error::custom("bad 128-bit integer"))
+    }
 }
 
 impl IntVal {
